@@ -156,15 +156,18 @@ Definition new_ok (p : plugin) : bool := negb (stub_events p =? 0)%Z.
 Inductive cfg_hook := NoHook | HookFails | HookMask (m : Z).
 Inductive cfg_result := COk (events : Z) | CErrHook | CErrUnhandled.
 
-Definition configure (p : plugin) (h : cfg_hook) : cfg_result :=
+(* Configure for a stub whose mask is ev (the mask is a parameter so that the clamping lemmas
+   are proved for every mask, without looking into setupHandlers) *)
+Definition configure_with (ev : Z) (h : cfg_hook) : cfg_result :=
   match h with
-  | NoHook => COk (stub_events p)
+  | NoHook => COk ev
   | HookFails => CErrHook
   | HookMask m =>
-      let events := if (configure_zero_default && (m =? 0)%Z)%bool then stub_events p else m in
-      let extra := Z.land events (Z.lnot (stub_events p)) in
+      let events := if (configure_zero_default && (m =? 0)%Z)%bool then ev else m in
+      let extra := Z.land events (Z.lnot ev) in
       if (configure_rejects_extra && negb (extra =? 0)%Z)%bool then CErrUnhandled else COk events
   end.
+Definition configure (p : plugin) (h : cfg_hook) : cfg_result := configure_with (stub_events p) h.
 
 (* --- dispatch ----------------------------------------------------------- *)
 
@@ -213,11 +216,10 @@ Fixpoint run_calls (hs : list (string * string)) (m : message) (beh : string -> 
       end
   end.
 
-(* deliver one message to the stub of plugin p whose methods behave as beh:
+(* deliver one message to a stub whose handler table is hs and whose plugin methods behave as beh:
    the invocations made (in order) and the reply the runtime sees *)
-Definition deliver (p : plugin) (c : carrier) (m : message) (beh : string -> hresult)
+Definition deliver_with (hs : list (string * string)) (c : carrier) (m : message) (beh : string -> hresult)
   : list invocation * reply :=
-  let hs := stub_handlers p in
   match c with
   | ByRPC name =>
       match find_rpc name with
@@ -236,6 +238,8 @@ Definition deliver (p : plugin) (c : carrier) (m : message) (beh : string -> hre
           (inv, if String.eqb err "" then no_reply else RErr err)
       end
   end.
+Definition deliver (p : plugin) (c : carrier) (m : message) (beh : string -> hresult)
+  : list invocation * reply := deliver_with (stub_handlers p) c m beh.
 
 (* the handler id the stub routes an event to: the unique handlers field called *)
 Definition handler_of_field (f : string) : option handler :=
@@ -251,39 +255,44 @@ Definition dispatch (h : handler) : option handler :=
       end
   end.
 
-(* what the property demands of one delivery (reference) *)
-Definition expected_delivery (p : plugin) (h : handler) (m : message) (beh : string -> hresult)
+(* what the property demands of one delivery (reference); b = the plugin implements h *)
+Definition expected_with (b : bool) (h : handler) (m : message) (beh : string -> hresult)
   : list invocation * reply :=
-  if implements p h then
+  if b then
     let r := beh (method_of h) in
     ([(method_of h, map (field m) (proto_args h))],
      if String.eqb (r_error r) "" then
        ROk (if proto_returns_adjust h then r_adjust r else "") (if proto_returns_update h then r_update r else "")
      else RErr (r_error r))
   else ([], no_reply).
+Definition expected_delivery (p : plugin) (h : handler) (m : message) (beh : string -> hresult)
+  : list invocation * reply := expected_with (implements p h) h m beh.
 
 (* --- executable predicates over the whole finite domain ----------------- *)
 
 Definition plugins_upto (n : N) : list N := map N.of_nat (seq 0 (N.to_nat n)).
 Definition event_bits : list Z := map Z.of_nat (seq 1 31).
 
-(* the stub's mask has exactly the bits of the implemented handlers' events *)
+(* the stub's mask has exactly the bits of the implemented handlers' events.
+   [sub_ok] and [handler_ok] take the stub's mask / handler table as a parameter so that
+   (a) the VM computes them once per plugin type and (b) the lemmas about them are
+   proved for an arbitrary mask / table, without ever unfolding stub_events. *)
 Definition handler_events : list (handler * Z) := map (fun h => (h, proto_event h)) all_handlers.
+Definition sub_ok (he : list (handler * Z)) (ev : Z) (p : plugin) (e : Z) : bool :=
+  Bool.eqb (is_set ev e) (existsb (fun x => implements p (fst x) && (snd x =? e)%Z) he).
 Definition subscription_exact_t (he : list (handler * Z)) (p : plugin) : bool :=
-  let ev := stub_events p in
-  forallb (fun e => Bool.eqb (is_set ev e)
-                             (existsb (fun x => implements p (fst x) && (snd x =? e)%Z) he))
-          event_bits.
+  forallb (sub_ok he (stub_events p) p) event_bits.
 Definition all_subscriptions_exact (n : N) : bool :=
-  let he := handler_events in forallb (subscription_exact_t he) (plugins_upto n).
+  forallb (subscription_exact_t handler_events) (plugins_upto n).
 
 (* field h is bound iff the plugin implements h's interface, and then to h's method *)
-Definition handlers_exact (p : plugin) : bool :=
-  let hs := stub_handlers p in
-  forallb (fun h => match alookup (method_of h) hs with
-                    | Some meth => implements p h && String.eqb meth (method_of h)
-                    | None => negb (implements p h)
-                    end) all_handlers.
+Definition handler_ok (hs : list (string * string)) (p : plugin) (h : handler) : bool :=
+  match alookup (method_of h) hs with
+  | Some meth => implements p h && String.eqb meth (method_of h)
+  | None => negb (implements p h)
+  end.
+Definition handlers_exact (p : plugin) : bool := forallb (handler_ok (stub_handlers p) p) all_handlers.
+Definition all_handlers_exact (n : N) : bool := forallb handlers_exact (plugins_upto n).
 
 (* ====================================================================== *)
 (* Part 2 — the life cycle                                                 *)
